@@ -56,21 +56,26 @@ PLAN = {}
 
 # what later rounds of seeded changes added to each check (appended to the rule text of the evidence / manifest)
 ADDED = {
+    "C18": "; {:?} of the holder is an operation (enumerated next to sets, sampled, in the Miri / TSan stress); macro_miri under Miri races two set_global_default calls against a checker of 'is set => get works'",
+    "C15": "; producer 0 of every concurrent history runs on one long-lived thread of the process (veterans next to newcomers)",
+    "C14": "; destinations nobody listens at, also on caller-connected sockets (ECONNREFUSED one datagram late); a user-written sink made of ext::MultiLineWriter + ext::SocketStats counting through a cloned handle",
+    "C07": "; W1 also through write_all / write_vectored; a fifth of the fault histories answer refused buffer writes with Ok(0)",
+    "C02": "; macro form: arguments spelled as call / brace block / identifier / parenthesised / if-match",
     "C05": "; rule F1 is also judged on the histories with injected write failures (random W1 incl. a writer that answers Ok(0), spy, sockets, the fault DFS); W1 histories also go through write_all and write_vectored",
-    "C01": "; the standalone constructors are also given the same full name cut at another place; the last four shards run in a hostile process environment (getenv interposer answers every variable asked for, usual DogStatsD variables set)",
-    "C03": "; the last four shards run in a hostile process state (getenv interposer, standard error unwritable: /dev/full); refusal payload shapes (message, typed payload, a cadence error as payload, raw OS error, nested io::Error); one step in six first makes the same builder and drops it unsent (no emit, no handler call)",
-    "C04": "; the last four shards run in a hostile process environment (getenv interposer answers every variable asked for, usual DogStatsD variables set): a client adds nothing of its own",
-    "C06": "; W5 flushes also with 1-3 metrics still queued behind the one the queue's thread holds; miri_time (hour-long pauses on Miri's virtual clock) and seven histories with real pauses of 1.3 / 2.6 s",
-    "C08": "; composed queuing sinks (a queue feeding a queue, a handler reporting through a queue); miri_time: a wrapped sink that stalls for a virtual hour with metrics accepted behind it - age is no reason to skip a metric",
-    "C09": "; miri_time: a backlog behind a sink that needs ten virtual minutes per metric is handed over completely after the last drop, drop itself takes no virtual time, release within a virtual day; miri_queue: last drop at the moment of the last delivery (weak-memory emulation)",
-    "C10": "; miri_time: emit keeps answering by queue room alone while the wrapped sink is inside one call for a virtual hour; unbounded queues with backlogs of 70 000 and 2^20 + 60 000 behind the blocked sink accept everything; emit called on another queuing sink's thread (queue -> queue, handler -> queue) is answered like any caller's; a wrapped sink and handler using 100 KiB of stack; a driver killed by a signal counts",
+    "C01": "; the standalone constructors are also given the same full name cut at another place; the last four shards run in a hostile process environment (getenv interposer answers every variable asked for, usual DogStatsD variables set); 1 case in 8 builds the client directly on the library's own sinks (Unix, UDP, buffered, spy, nop, each also behind a queuing sink) and reads the line from the returned metric; strings of class 'realistic' (runtime container ids, UUIDs, well-known tag names ...)",
+    "C03": "; the last four shards run in a hostile process state (getenv interposer, standard error unwritable: /dev/full); refusal payload shapes (message, typed payload, a cadence error as payload, raw OS error, nested io::Error); one step in six first makes the same builder and drops it unsent (no emit, no handler call); 1 in 40 Vec values renders to 70-200 KB (still one call, one string)",
+    "C04": "; the last four shards run in a hostile process environment (getenv interposer answers every variable asked for, usual DogStatsD variables set): a client adds nothing of its own; 1 case in 6 builds the client directly on the library's own sinks (the default container id and tags do not depend on the sink type); realistic strings (64-digit hex container ids ...)",
+    "C06": "; W5 flushes also with 1-3 metrics still queued behind the one the queue's thread holds; miri_time (hour-long pauses on Miri's virtual clock) and seven histories with real pauses of 1.3 / 2.6 s; W1 also through write_all / write_vectored; histories with exactly 2^8 / 2^16 / 2^17 lines buffered at the flush",
+    "C08": "; composed queuing sinks (a queue feeding a queue, a handler reporting through a queue); miri_time: a wrapped sink that stalls for a virtual hour with metrics accepted behind it - age is no reason to skip a metric; compose: the queue's own thread as a caller of the same queue (follow-ups emitted by the wrapped sink / the handler into a small bounded queue); a library thread that burns 3 s of CPU time without any logged event is a verdict (spinning)",
+    "C09": "; miri_time: a backlog behind a sink that needs ten virtual minutes per metric is handed over completely after the last drop, drop itself takes no virtual time, release within a virtual day; miri_queue: last drop at the moment of the last delivery (weak-memory emulation); compose: used / never used sinks around a wrapped sink whose destructor panics or blocks (drop returns at once, does not unwind, the destructor does not run on the caller)",
+    "C10": "; miri_time: emit keeps answering by queue room alone while the wrapped sink is inside one call for a virtual hour; unbounded queues with backlogs of 70 000 and 2^20 + 60 000 behind the blocked sink accept everything; emit called on another queuing sink's thread (queue -> queue, handler -> queue) is answered like any caller's; a wrapped sink and handler using 100 KiB of stack; a driver killed by a signal counts; spinning verdict as for C08",
     "C11": "; a queuing sink built and used by a destructor during unwinding reports panics() == 0; miri_time: hours of idling and an emit afterwards leave panics() at 0; a refusal with room in the queue after a panic of the wrapped sink counts here too ('keeps accepting')",
-    "C12": "; every other run ends with the drop alone (no final flush)",
-    "C13": "; socket file names with special first bytes (@ - ~ # % : blank) as bare relative paths, buffered Unix sinks addressed relatively; address lists whose first entry is of the other family than the socket (first address is the destination, the second stays silent)",
-    "C16": "; every fourth history runs against a wrapped sink whose flush() fails with an error of its own (only a caller's flush may see it: a handler call carrying it is handler-without-failure)",
-    "C17": "; macros invoked from a thread-local destructor at thread exit (client set); a process killed by a signal counts",
-    "C19": "; rule F4 is also judged on the random W1 / spy / socket histories with injected write failures (every error kind incl. WouldBlock, kernel EAGAIN): a refused write is no reason to write early later; W5: metrics refused by a wrapper in front of the buffered sink give no reason to write; miri_time (hour-long pauses on Miri's virtual clock: direct, behind an idle queue, after dropping one of two handles) and seven histories with real pauses of 1.3 / 2.6 s - nothing is written 'after a while'",
-    "C20": "; area tls: metrics recorded from thread-local destructors at thread exit (queue, client over queue, buffered spy, client with handler); miri_api: a tour of the whole public API under Miri (UB / data races of the paths reached, lines compared with literals)",
+    "C12": "; every other run ends with the drop alone (no final flush); every third UDP run has a socket that refuses a fifth of the datagrams while the threads emit and flush; all threads make their last emit at the same moment; three runs in four end with the drop alone",
+    "C13": "; socket file names with special first bytes (@ - ~ # % : blank) as bare relative paths, buffered Unix sinks addressed relatively; address lists whose first entry is of the other family than the socket (first address is the destination, the second stays silent); sockets the caller has connect()ed to another peer; destination port 0; buffered UDP sinks addressed to another host (interposer answers for the kernel)",
+    "C16": "; every fourth history runs against a wrapped sink whose flush() fails with an error of its own (only a caller's flush may see it: a handler call carrying it is handler-without-failure); compose: an outer queue with a handler directly around a small blocked inner queue (refusals of the inner queue are failures like any other); a handler that flushes a clone of its own queue",
+    "C17": "; macros invoked from a thread-local destructor at thread exit (client set); a process killed by a signal counts; arguments spelled as call / brace block / identifier / parenthesised / if-match; a return inside an argument leaves the caller; unset macros panic before evaluating their arguments",
+    "C19": "; rule F4 is also judged on the random W1 / spy / socket histories with injected write failures (every error kind incl. WouldBlock, kernel EAGAIN): a refused write is no reason to write early later; W5: metrics refused by a wrapper in front of the buffered sink give no reason to write; miri_time (hour-long pauses on Miri's virtual clock: direct, behind an idle queue, after dropping one of two handles) and seven histories with real pauses of 1.3 / 2.6 s - nothing is written 'after a while'; buffered UDP sinks addressed to another host with capacities above 1432",
+    "C20": "; area tls: metrics recorded from thread-local destructors at thread exit (queue, client over queue, buffered spy, client with handler); miri_api: a tour of the whole public API under Miri (UB / data races of the paths reached, lines compared with literals); Unix socket paths of 98-5000 bytes, with an interior NUL, empty; the last shard of each area runs with an unwritable standard error",
 }
 
 
